@@ -33,7 +33,7 @@ def all_paths(entries, prefix=(), descend_family_sets=True):
     return out
 
 
-def gen_op(r: random.Random, model: A.Model, *, scoped_bias=0.15, failing_bias=0.2, rm_bias=0.4, single_line=False, descend_family_sets=True, scoped_family_extend=True):
+def gen_op(r: random.Random, model: A.Model, *, scoped_bias=0.15, failing_bias=0.2, rm_bias=0.4, single_line=False, descend_family_sets=True, scoped_family_extend=True, at_inherited=True):
     """Draw one operation: returns (op, path_text, value_text|None, path_class)."""
     depth = 0
     nlayers = len(model.layers)
@@ -50,8 +50,15 @@ def gen_op(r: random.Random, model: A.Model, *, scoped_bias=0.15, failing_bias=0
     S = None
     if x < failing_bias:
         # classes that the model expects to be rejected
-        kind = r.choice(["missing", "through-leaf", "family-root", "missing-nested", "deep-scope"])
-        if kind == "missing" or not defs:
+        kind = r.choice(["missing", "through-leaf", "family-root", "missing-nested", "deep-scope", "missing-deep"])
+        if kind == "missing-deep":
+            # rm of a dotted path whose first (or second) segment does not exist: nothing may be created on the way
+            sets = [p for p, e in defs if A.is_set(e)]
+            base = r.choice(sets) if sets and r.random() < 0.4 else ()
+            S, cls = base + (r.choice(["nope", "cfg9"]), r.choice(["port", "x"])) + ((r.choice(["name"]),) if r.random() < 0.3 else ()), "missing-deep"
+            op = "rm"
+            value = None
+        elif kind == "missing" or not defs:
             S, cls = (r.choice(["nope", "missing1", "zz9"]),), "missing"
             op = "rm"
             value = None
@@ -77,7 +84,15 @@ def gen_op(r: random.Random, model: A.Model, *, scoped_bias=0.15, failing_bias=0
         leaves = [p for p, e in defs if not A.is_set(e)]
         sets = [p for p, e in defs if A.is_set(e)]
         fam_roots = sorted({e["path"][:1] for e in target if e["inh"] is None and len(e["path"]) > 1})
-        if y < 0.4 and leaves:
+        inherited = sorted({e["path"][0] for e in target if e["inh"] is not None})
+        if y < 0.02 and inherited and at_inherited and op == "set":
+            # the inherited name itself (finding F28 when this class is switched off)
+            S, cls = (r.choice(inherited),), "at-inherited"
+        elif y < 0.05 and inherited:
+            # below a name that is only inherited: the statements leave open whether this is refused, but the result
+            # must never define the name a second time
+            S, cls = (r.choice(inherited), r.choice(["description", "version"])) + (("x",) if r.random() < 0.3 else ()), "through-inherited"
+        elif y < 0.4 and leaves:
             S, cls = r.choice(leaves), "existing-leaf"
         elif y < 0.5 and sets:
             S, cls = r.choice(sets), "existing-set"
